@@ -32,16 +32,17 @@ type acceptItem struct {
 
 // FakeListener is a net.Listener whose every step is ordered by the harness.
 type FakeListener struct {
-	ch        chan acceptItem
-	closed    chan struct{}
-	closeOnce sync.Once
-	mu        sync.Mutex
-	Events    []string    // "deadline", "accept-enter", "accept-conn", "accept-timeout", "accept-closed", "close"
-	Deadlines []time.Time // every SetDeadline value
-	AcceptRet []time.Time // time each Accept returned
-	acceptsIn int32       // Accept calls currently blocked
-	AcceptN   int32       // Accept calls started
-	CloseN    int32
+	ch         chan acceptItem
+	closed     chan struct{}
+	closeOnce  sync.Once
+	mu         sync.Mutex
+	Events     []string    // "deadline", "accept-enter", "accept-conn", "accept-timeout", "accept-closed", "close"
+	Deadlines  []time.Time // every SetDeadline value
+	DeadlineAt []time.Time // when each of them was set
+	AcceptRet  []time.Time // time each Accept returned
+	acceptsIn  int32       // Accept calls currently blocked
+	AcceptN    int32       // Accept calls started
+	CloseN     int32
 	// AfterCloseHand: if non-nil, the pending Accept returns this connection while Close is in
 	// progress ("accept won the race").
 	raceConn net.Conn
@@ -134,6 +135,7 @@ func (l *FakeListener) SetDeadline(t time.Time) error {
 	l.mu.Lock()
 	l.Events = append(l.Events, "deadline")
 	l.Deadlines = append(l.Deadlines, t)
+	l.DeadlineAt = append(l.DeadlineAt, time.Now())
 	l.mu.Unlock()
 	return nil
 }
